@@ -7,7 +7,7 @@ import lib
 from props import histcorr
 
 MODEL_DEPS = ['CheckLib']
-KERNELS = ('MemoryCache', 'CachedColumn', 'CacheEdge')
+KERNELS = ('MemoryCache', 'CachedColumn', 'CacheColumns', 'CacheEdge')
 TRUSTED = ['Coq 8.16.1 kernel; vm_compute in case shards and the Example',
            'tools/translate.py: MemoryCache.get/set/clear (clear kind, lock scopes), CachedColumn._get_shard (whole-body pattern), CacheEdge.evaluate',
            'pylru is third-party: modelled by hand (Model/Store.v, Proofs/Lru.v) and compared with the real MemoryCache on operation lists']
@@ -143,4 +143,6 @@ def run(ctx):
     res['distribution'].update({'memcache_op_lists': total, 'shard_cases': total2})
     from props import relcorr, colreuse
     res = relcorr.memo_oracle(ctx, res, 'C08')
-    return colreuse.add(ctx, res, 'C08')
+    res = colreuse.add(ctx, res, 'C08')
+    from props import colmodel
+    return colmodel.add(ctx, res, 'C08')
